@@ -359,4 +359,58 @@ termination_by structural fs => fs
 end
 
 
+/-! ### key-renaming mappers (Props/C10 §7) -/
+
+def relabelKey (m : TMapper) : PyVal → PyVal
+  | .str n => .str (mapKey m n)
+  | k => k
+
+def relabelPairs (m : TMapper) (r : List (PyVal × PyVal)) : List (PyVal × PyVal) :=
+  r.map fun kv => (relabelKey m kv.1, kv.2)
+
+/-- the document of a class-level object with its keys renamed by the class's mapper -/
+def relabelDoc (m : TMapper) (d : PyVal) : R PyVal :=
+  match d with
+  | .dict r => .ok (.dict (relabelPairs m r))
+  | v => .ok v
+
+
+mutual
+/-- no class inside `f` has a mapper -/
+def mfreeD (Mp : MapEnv) : FieldDecl → Bool
+  | .struct c fields _ => (c.inline || (Mp c.name).isNone) && mfreeFields Mp fields
+  | .seqOf _ item _ => mfreeD Mp item
+  | .setOf _ item _ => mfreeD Mp item
+  | .tupleOf item _ => mfreeD Mp item
+  | .tuplePos items _ => mfreeL Mp items
+  | .seqPos _ items _ _ => mfreeL Mp items
+  | .mapOf kf vf _ => mfreeD Mp kf && mfreeD Mp vf
+  | .anyOf fs => mfreeL Mp fs
+  | .oneOf fs => mfreeL Mp fs
+  | .allOf fs => mfreeL Mp fs
+  | .notF fs => mfreeL Mp fs
+  | .number _ => true
+  | .integer _ => true
+  | .float _ => true
+  | .string _ _ _ => true
+  | .boolean => true
+  | .noneF => true
+  | .enumLit _ => true
+  | .enumCls _ _ => true
+  | .seqAny _ _ => true
+  | .setAny _ _ => true
+  | .mapAny _ => true
+  | .anything => true
+termination_by structural f => f
+def mfreeL (Mp : MapEnv) : List FieldDecl → Bool
+  | [] => true
+  | f :: fs => mfreeD Mp f && mfreeL Mp fs
+termination_by structural fs => fs
+def mfreeFields (Mp : MapEnv) : List (String × FieldDecl) → Bool
+  | [] => true
+  | (_, f) :: rest => mfreeD Mp f && mfreeFields Mp rest
+termination_by structural fs => fs
+end
+
+
 end Typedpy
